@@ -372,13 +372,15 @@ Section Check.
 
   Section Sound.
     Variable rho : nat -> R.
+    Variables var coef : nat -> R.     (* arguments and coefficient values the DAG is evaluated on *)
+    Hypothesis rho_var : forall i, (i < nv)%nat -> rho i = var i.
+    Hypothesis rho_coef : forall k, (nv + nc + k < N)%nat -> rho (nv + nc + k)%nat = coef k.
     Hypothesis rho_unit : forall i, unitb_of i = true -> rho i <> 0%R.
     Hypothesis rho_defs : forall a d, nth_error defs a = Some d -> (a < nc)%nat -> rho (nv + a)%nat = dpoly rho d.
 
     Notation ok := (poly_ok unitb_of).
     Notation den := (dpoly rho).
-    Definition evR := eval_node 0%R (fun q _ => Q2R q) Rplus Rminus Rmult Rdiv Ropp sqrt exp
-                                rho (fun k => rho (nv + nc + k)%nat).
+    Definition evR := eval_node 0%R (fun q _ => Q2R q) Rplus Rminus Rmult Rdiv Ropp sqrt exp var coef.
 
     Definition agree (ps : list poly) (vs : list R) : Prop :=
       Forall2 (fun p v => ok p = true /\ den p = v) ps vs.
@@ -398,10 +400,10 @@ Section Check.
       destruct n as [q f|i|k|a b|a b|a b|a b|a|a|a|atom a]; cbn [step eval_node]; unfold get.
       - intros [= <-]. destruct (pconst_sound rho unitb_of N q) as [A B]. auto.
       - destruct ((i <? nv)%nat && (i <? N)%nat) eqn:E; [|discriminate]. intros [= <-].
-        apply andb_true_iff in E as [_ E]. apply Nat.ltb_lt in E.
-        destruct (patom_sound rho unitb_of N i E) as [A B]. auto.
+        apply andb_true_iff in E as [E0 E]. apply Nat.ltb_lt in E, E0.
+        destruct (patom_sound rho unitb_of N i E) as [A B]. rewrite <- (rho_var i E0). auto.
       - destruct (nv + nc + k <? N)%nat eqn:E; [|discriminate]. intros [= <-]. apply Nat.ltb_lt in E.
-        destruct (patom_sound rho unitb_of N _ E) as [A B]. auto.
+        destruct (patom_sound rho unitb_of N _ E) as [A B]. rewrite <- (rho_coef k E). auto.
       - destruct (nth_error ps a) as [x|] eqn:Ea; [|discriminate].
         destruct (nth_error ps b) as [y|] eqn:Eb; [|discriminate]. intros [= <-].
         destruct (agree_nth _ _ _ _ Hag Ea) as [A1 A2]. destruct (agree_nth _ _ _ _ Hag Eb) as [B1 B2].
@@ -439,8 +441,7 @@ Section Check.
     Qed.
 
     Lemma run_sound ns : forall ps vs ps', agree ps vs -> run ps ns = Some ps' ->
-      agree ps' (eval_nodes 0%R (fun q _ => Q2R q) Rplus Rminus Rmult Rdiv Ropp sqrt exp
-                            rho (fun k => rho (nv + nc + k)%nat) vs ns).
+      agree ps' (eval_nodes 0%R (fun q _ => Q2R q) Rplus Rminus Rmult Rdiv Ropp sqrt exp var coef vs ns).
     Proof.
       induction ns as [|n r IH]; intros ps vs ps' Hag Hrun; cbn [run eval_nodes] in *.
       - injection Hrun as <-. exact Hag.
@@ -453,10 +454,9 @@ Section Check.
         claimed polynomial *)
     Theorem check_sound ns outs : check_dag ns outs = true ->
       forall pos q, In (pos, q) outs ->
-      nth pos (eval_nodes 0%R (fun q _ => Q2R q) Rplus Rminus Rmult Rdiv Ropp sqrt exp
-                          rho (fun k => rho (nv + nc + k)%nat) [] ns) 0%R = dpoly rho q.
+      nth pos (evalR var coef ns) 0%R = dpoly rho q.
     Proof.
-      unfold check_dag. destruct (run [] ns) as [env|] eqn:Er; [|discriminate].
+      unfold check_dag, evalR. destruct (run [] ns) as [env|] eqn:Er; [|discriminate].
       intros H pos q Hin. rewrite forallb_forall in H. specialize (H _ Hin). cbn [fst snd] in H.
       destruct (nth_error env pos) as [p|] eqn:Ep; [|discriminate].
       pose proof (run_sound ns [] [] env (Forall2_nil _) Er) as Hag.
@@ -464,3 +464,83 @@ Section Check.
     Qed.
   End Sound.
 End Check.
+
+(** ** Structured polynomial expressions: one syntax, two readings
+    ([pden]: the normal-form polynomial the checker compares with; [rden]: the real number) *)
+Inductive pexp :=
+| PC (q : Q) | PA (i : nat) | PP (i : nat) (e : Z)
+| PAdd (a b : pexp) | PSub (a b : pexp) | PMul (a b : pexp) | PNeg (a : pexp).
+
+Definition psum (l : list pexp) : pexp := fold_right PAdd (PC 0%Q) l.
+
+Section PExp.
+  Variable N : nat.
+  Variable unitb : nat -> bool.
+
+  Fixpoint pden (e : pexp) : poly :=
+    match e with
+    | PC q => pconst N q
+    | PA i => patom N i
+    | PP i e => ppow N i e
+    | PAdd a b => pclean (padd (pden a) (pden b))
+    | PSub a b => pclean (padd (pden a) (pneg (pden b)))
+    | PMul a b => pclean (pmul (pden a) (pden b))
+    | PNeg a => pneg (pden a)
+    end.
+
+  Fixpoint pwf (e : pexp) : bool :=
+    match e with
+    | PC _ => true
+    | PA i => (i <? N)%nat
+    | PP i e => (i <? N)%nat && (unitb i || (0 <=? e)%Z)
+    | PAdd a b | PSub a b | PMul a b => pwf a && pwf b
+    | PNeg a => pwf a
+    end.
+
+  Variable rho : nat -> R.
+  Hypothesis rho_unit : forall i, unitb i = true -> rho i <> 0%R.
+
+  Fixpoint rden (e : pexp) : R :=
+    match e with
+    | PC q => Q2R q
+    | PA i => rho i
+    | PP i e => powerRZ (rho i) e
+    | PAdd a b => (rden a + rden b)%R
+    | PSub a b => (rden a - rden b)%R
+    | PMul a b => (rden a * rden b)%R
+    | PNeg a => (- rden a)%R
+    end.
+
+  Lemma pden_sound e : pwf e = true -> dpoly rho (pden e) = rden e /\ poly_ok unitb (pden e) = true.
+  Proof.
+    induction e as [q|i|i z|a IHa b IHb|a IHa b IHb|a IHa b IHb|a IHa]; cbn [pwf pden rden]; intros H.
+    - apply pconst_sound.
+    - apply Nat.ltb_lt in H. apply patom_sound. exact H.
+    - apply andb_true_iff in H as [H1 H2]. apply Nat.ltb_lt in H1. apply ppow_sound; [exact H1|].
+      apply orb_true_iff in H2 as [H2|H2]; [left; exact H2|right; apply Z.leb_le; exact H2].
+    - apply andb_true_iff in H as [H1 H2]. destruct (IHa H1) as [A1 A2]. destruct (IHb H2) as [B1 B2].
+      rewrite pclean_sound, padd_sound, A1, B1. split; [reflexivity|apply pclean_ok, padd_ok; assumption].
+    - apply andb_true_iff in H as [H1 H2]. destruct (IHa H1) as [A1 A2]. destruct (IHb H2) as [B1 B2].
+      rewrite pclean_sound, padd_sound, pneg_sound, A1, B1. split; [reflexivity|].
+      apply pclean_ok, padd_ok; [assumption|rewrite pneg_ok; assumption].
+    - apply andb_true_iff in H as [H1 H2]. destruct (IHa H1) as [A1 A2]. destruct (IHb H2) as [B1 B2].
+      destruct (pmul_sound_ok rho unitb rho_unit _ _ A2 B2) as [M1 M2].
+      rewrite pclean_sound, M1, A1, B1. split; [reflexivity|apply pclean_ok; exact M2].
+    - destruct (IHa H) as [A1 A2]. rewrite pneg_sound, pneg_ok, A1. auto.
+  Qed.
+
+  Lemma rden_psum l : rden (psum l) = fold_right (fun e acc => (rden e + acc)%R) 0%R l.
+  Proof.
+    induction l as [|e r IH]; cbn [psum fold_right rden].
+    - unfold Q2R. cbn. lra.
+    - fold (psum r). rewrite IH. reflexivity.
+  Qed.
+  Lemma pwf_psum l : forallb pwf l = true -> pwf (psum l) = true.
+  Proof.
+    induction l as [|e r IH]; cbn [psum fold_right forallb pwf]; [reflexivity|]. intros H.
+    apply andb_true_iff in H as [H1 H2]. rewrite H1. apply IH. exact H2.
+  Qed.
+End PExp.
+
+Lemma Q2R_inject_Z z : Q2R (inject_Z z) = IZR z.
+Proof. unfold Q2R, inject_Z. cbn. rewrite Rinv_1. ring. Qed.
